@@ -489,7 +489,8 @@ func (t *Transition) emitSelfEvents() Result {
 	m := t.Machine
 	ret := Executed
 	var handlerCalled bool
-	for _, s := range t.TargetStates() {
+	// iterate over a copy, partial auto acceptance shrinks the target in place
+	for _, s := range slices.Clone(t.TargetStates()) {
 		// only the active states
 		if !t.Machine.Is(S{s}) {
 			continue
@@ -512,6 +513,8 @@ func (t *Transition) emitSelfEvents() Result {
 				t.TargetIndexes = slices.Delete(t.TargetIndexes, idx, idx+1)
 				targetStates = slices.Delete(targetStates, idx, idx+1)
 				t.cacheTargetStates.Store(&targetStates)
+				// rejecting one auto state doesn't cancel the others
+				ret = Executed
 			} else {
 				return ret
 			}
